@@ -6,7 +6,7 @@ RULE = ("all four rule families for every size n <= 12 (quick) / 18 (thorough); 
         "(the memo tables are module globals); Integrate.scalar on random polynomial spline curves (Fraction and float data, integer control points as python ints / numpy int arrays, default and explicit "
         "rules), Integrate.function on per-span polynomials of degree < nnodes (degree < 2n for Gauss-Legendre), Integrate.lenght of random polylines.  "
         "Non-trivial: n >= 3 or a curve with an interior knot; distinct = distinct (family, n) / request orders / curves."
-        " Also: request histories with weights-before-nodes and nodes-before-weights, discontinuous polylines for lenght, closed rule on float knots.")
+        " Also: request histories with weights-before-nodes and nodes-before-weights, discontinuous polylines for lenght, closed rule on float knots; lenght asked again after the caller moved the vertices in place.")
 EXPLANATION = ("L3: the moment conditions sum_i w_i x_i^k = 1/(k+1) are evaluated exactly (Fraction rules) or to 1e-10 (float rules) on the rules the "
                "library returns, nodes increasing in [0,1], weights summing to 1; spline integrals are compared with the exact integral of the span "
                "polynomials (`rf.integral`) and with the closed form.  L2: closed/open rules and memoised request sequences vs the Lean model "
@@ -208,6 +208,21 @@ def run_case(ctx, case):
         l3(rec, "segment-lengths")
         if abs(float(r[1]) - want) > 1e-9 * max(1.0, want):
             rec.violation("Integrate.lenght of a polyline is not the sum of its segment lengths", case, observed=float(r[1]), expected=want)
+            return
+        # the answer belongs to the polyline as it is now, not as it was at an earlier request: the caller moves the vertices (the
+        # curve holds the caller's point arrays, evaluation follows them) and asks again, also with another rule
+        pts_now = list(curve.ctrlpoints)
+        for k, q in enumerate(pts_now):
+            q *= (k % 3) + 1.5
+        Q = [tuple(float(x) for x in q) for q in pts_now]
+        want2 = sum(math.sqrt(sum((a - b) ** 2 for a, b in zip(Q[i - 1], Q[i]))) for i in range(1, len(Q)) if U[i] < U[i + 1])
+        for args in ((), (None, "gauss-legendre", 3)):
+            r2 = impl(lambda: Integrate.lenght(curve, *args))
+            l3(rec, "segment-lengths-after-moving-vertices")
+            if r2[0] != "ok" or abs(float(r2[1]) - want2) > 1e-9 * max(1.0, want2):
+                rec.violation("Integrate.lenght after the vertices were moved in place is not the length of the present polyline", case,
+                              observed=str(r2[1]), expected=want2, first_answer=float(r[1]))
+                return
 
 
 def run(ctx):
